@@ -102,7 +102,9 @@ KindsInt == {"ibin", "iun", "shift", "div", "br2", "br1", "loop", "ovf", "switch
 KindsFp == {"fbin", "fcmp", "fbr", "i2f", "f2i", "fmovm", "f2f", "callg3"}
 (* "link": the constructs MIR_link rewrites (calls to inline, allocas, jumps and branch chains, memory operands) *)
 KindsLink == {"callg1", "callg2", "callg3", "ext", "alloca", "br2", "br1", "loop", "switch", "ibin", "idx", "jmpi", "ovf", "calla"}
-Kinds == IF Vocab = "int" THEN KindsInt ELSE IF Vocab = "link" THEN KindsLink ELSE KindsInt \cup KindsFp \cup {"calla"}
+Kinds == IF Vocab = "int" THEN KindsInt ELSE IF Vocab = "link" THEN KindsLink
+         ELSE IF Vocab = "single" THEN (KindsInt \cup KindsFp \cup {"calla"}) \ {"callg3"}      \* functions with at most one result
+         ELSE KindsInt \cup KindsFp \cup {"calla"}
 
 (* holes of each kind, in order; a hole name selects its domain below *)
 Holes(k) ==
